@@ -120,7 +120,7 @@ impl Body {
 
 /// Connect two S-variables by one atom (an "edge" of the query hypergraph).
 fn edge(b: &mut Body, rng: &mut Rng, x: usize, y: usize) {
-    match rng.below(7) {
+    match rng.weighted(&[2, 2, 3, 1, 1, 1, 1]) {
         0 | 1 => b.atoms.push(AtomP { tab: rng.below(2), args: vec![P::Var(x), P::Var(y)], out: None }),
         2 => {
             // ternary relation, third position fresh / reused / constant
@@ -151,7 +151,7 @@ fn edge(b: &mut Body, rng: &mut Rng, x: usize, y: usize) {
 
 fn third(b: &mut Body, rng: &mut Rng) -> P {
     let svars: Vec<usize> = (0..b.var_ty.len()).filter(|i| b.var_ty[*i] == Ty::S).collect();
-    match rng.below(4) {
+    match rng.below(6) {
         0 if !svars.is_empty() => P::Var(*rng.pick(&svars)),
         1 => P::ConstS(rng.range(0, 5)),
         _ => P::Var(b.new_var(Ty::S)),
@@ -159,7 +159,7 @@ fn third(b: &mut Body, rng: &mut Rng) -> P {
 }
 
 fn gen_body(rng: &mut Rng) -> Body {
-    let shapes = ["chain", "star", "triangle", "cycle4", "cycle5", "clique4", "lollipop", "product", "random", "single", "pair", "bowtie", "bowtie", "cactus"];
+    let shapes = ["chain", "star", "triangle", "cycle4", "cycle5", "clique4", "lollipop", "product", "random", "single", "pair", "bowtie", "bowtie", "bowtie", "cactus", "cactus"];
     let shape = *rng.pick(&shapes);
     let mut b = Body { shape, var_ty: vec![], atoms: vec![], guards: vec![] };
     let sv = |b: &mut Body, n: usize| -> Vec<usize> { (0..n).map(|_| b.new_var(Ty::S)).collect() };
@@ -577,8 +577,8 @@ fn plant(b: &Body, rng: &mut Rng, dom: usize, out: &mut Vec<String>) {
     // half of the time the planted values come from a pool disjoint from the noise rows, so that the
     // rows of one key are exactly one contiguous block
     let disjoint = rng.chance(1, 2);
-    let pool: Vec<usize> = if disjoint { (0..3).map(|i| 5000 + i).collect() } else { (0..small).collect() };
-    let nplant = 1 + rng.below(4);
+    let pool: Vec<usize> = if disjoint { (0..2 + rng.below(2)).map(|i| 5000 + i).collect() } else { (0..small).collect() };
+    let nplant = 2 + rng.below(4);
     let mut fresh = 3000usize;
     let mut blocks: Vec<Vec<String>> = vec![vec![]; b.atoms.len()];
     for _ in 0..nplant {
@@ -601,7 +601,7 @@ fn plant(b: &Body, rng: &mut Rng, dom: usize, out: &mut Vec<String>) {
             // a variable that occurs only here may vary over a run
             let free: Option<usize> = a.args.iter().filter_map(|p| if let P::Var(v) = p { Some(*v) } else { None }).find(|v| occurrences(*v) == 1);
             let run = match free {
-                Some(_) if rng.chance(1, 2) => *rng.pick(&[3usize, 17, 20, 33]),
+                Some(_) if rng.chance(2, 3) => *rng.pick(&[3usize, 17, 20, 20, 33]),
                 _ => 1,
             };
             for j in 0..run {
